@@ -173,7 +173,7 @@ def strategy():
 
 def run_shard(ctx):
     stats = core.Stats()
-    core.hyp_search(strategy(), lambda c: execute(c, ctx.scratch), stats, max_examples=1500 if ctx.tier == "thorough" else 300,
+    core.hyp_search(strategy(), lambda c: execute(c, ctx.scratch), stats, max_examples=15000 if ctx.tier == "thorough" else 300,
                     seed=core.hash64(ctx.seed, ID, ctx.shard), findings=ctx.findings,
                     deadline_s=(ctx.deadline - time.time()) if ctx.deadline else None)
     return stats
